@@ -4,11 +4,12 @@ EXTENDS Serial
 VARIABLES cfg, done
 Suffixes == {".csv", ".txt", "", ".pq", ".parquet", ".dat", ".PARQUET", ".Pq"}
 Cases == [n : 0..4, lattice : {"d4", "d6", "wide", "int"}, rots : {"rot24", "pi", "rotq", "tiny", "random"},
-          feats : {"none", "ints", "mixed", "nulls", "special"}, prec : {-1, 2, 4, 6}, via : {"file", "csv", "parquet", "frame"},
+          feats : {"none", "ints", "mixed", "nulls", "special"}, prec : {-1, 2, 4, 6, 8, 9}, via : {"file", "csv", "parquet", "frame"},
           suffix : Suffixes, layout : {"c", "f"}, prep : {"none", "inplace"}]     \* layout: memory order of the position array handed to Molecules
 Valid(c) == /\ (c.via = "frame" => c.suffix = "" /\ c.prec = -1)
             /\ (c.via = "parquet" => c.prec = -1 /\ c.suffix \in {".pq", ".x"} \cup {".parquet"})
             /\ (c.via = "csv" => c.suffix = ".csv")
+            /\ (c.prec \in {8, 9} => c.via = "csv" /\ c.feats \in {"none", "mixed"} /\ c.layout = "c")     \* decimals beyond float32: a Float64 feature
             /\ (c.via = "file" => c.prec \in {-1, 4})
             \* prep = "inplace": the table is shifted in place before it is saved (exact formats only: the shifted coordinates are
             \* not on the decimal lattices of the csv cases)
